@@ -56,7 +56,9 @@ def plan(tier, seed):
 def check_titles(d, M, uni):
     spec = dialects.master()[d]
     m = GherkinInMarkdownTokenMatcher(d)
-    titles = ["title", "", "  padded title  "] + (["té\U0001F600: x # y"] if uni else [])
+    # boundary titles: closing-sequence look-alikes, keyword look-alikes, bullets, backticks, pipes
+    titles = ["title", "", "  padded title  ", "Export to C#", "a # b ##", "#", "x: y", ": x", "* x", "`@t` t", "| a |", "Given x", "\\"] + \
+        (["té\U0001F600: x # y"] if uni else [])
     for role in dialects.TITLE_ROLES:
         method = ROLE_METHOD[role]
         for kw in spec[role]:
@@ -117,7 +119,8 @@ def check_steps(d, M):
                 for ind in ("", "  "):
                     if bullet == "" and sp != " ":
                         continue
-                    line = ind + bullet + (sp if bullet else "") + kw + "text here \n"
+                    text = ("text here ", "C# and F#", "- x", "* y #", "`@t`")[(len(kw) + len(ind) + len(sp)) % 5]
+                    line = ind + bullet + (sp if bullet else "") + kw + text + "\n"
                     want = expected_step(spec, line)
                     res, t = call(m, "match_StepLine", line)
                     M.count("step_line_checks")
